@@ -120,6 +120,129 @@ def run_sort(C, job):
     C.samples.append({'toposort': f'n={n}', 'shapes': len(shapes), 'example_order': res.get('order')})
 
 
+def run_auth_diff(C, job):
+    """get_auth_chain_diff: the ids that are not in every auth chain, as a set, for every iteration order of the HashSets and of
+    the counting HashMap (C06)"""
+    nsets = job
+    E = C.fresh_engine(KEYS, N=8)
+    E.feas_mode = 'never'
+    E.hash_any_order = True
+    E.overrides.insert(0, (re.compile(r'^<Id as std::clone::Clone>::clone$'), lambda E_, st, c, a, m: [(TRUE, E_.deref(st, a[0]))]))
+    f = E.find_func('get_auth_chain_diff')
+    ids = [E.const_str(b'$a'), E.const_str(b'$b'), E.const_str(b'$c')]
+    universe = [0, 1, 2] if nsets <= 2 else [0, 1]
+    subsets = [c for r in range(len(universe) + 1) for c in itertools.combinations(universe, r)]
+    npaths = 0
+    for combo in itertools.product(subsets, repeat=nsets):
+        label = f'auth-chain difference of {[sorted(ids[i].conc().decode() for i in s_) for s_ in combo]}'
+        del E.axioms[:]
+        st = E.new_state()
+        arg = Obj('Vec', tuple(Obj('HSet', tuple(ids[i] for i in s_)) for s_ in combo))
+        outs = E.run_func(f, [arg], [], st=st)
+        C.absorb(E)
+        want = sorted(ids[i].conc() for i in universe if 0 < sum(i in s_ for s_ in combo) < nsets)
+        bad = None
+        for o in outs:
+            if o.kind != 'ret':
+                bad = f'panics: {o.value}'; break
+            it = E.deref(o.st, o.value)
+            if not (isinstance(it, Obj) and it.kind == 'FilterMapIter'):
+                raise Inconclusive(f'{label}: unexpected result {it!r}')
+            got = []
+            for item in it.data[0]:
+                rs = E.call_value(o.st, it.data[1], [item])
+                if len(rs) != 1 or rs[0][1].kind != 'ret':
+                    raise Inconclusive(f'{label}: closure forks on concrete data')
+                v = rs[0][1].value
+                if v.variant == 'Some':
+                    got.append(E.as_str(rs[0][1].st, v.fields[0]).conc())
+            npaths += 1
+            if sorted(got) != want:
+                bad = f'yields {sorted(x.decode() for x in got)}, the ids missing from at least one chain are {[x.decode() for x in want]}'; break
+        C.queries.append({'name': label + f': ids not in every chain, all {len(outs)} hash iteration orders', 'result': 'sat' if bad else 'unsat', 's': 0})
+        if bad:
+            vec = {'op': 'c06:auth_diff', 'sets': [[ids[i].conc().decode() + ':x' for i in s_] for s_ in combo]}
+            res = C.native(vec); vec['native'] = res
+            wantn = sorted(x.decode() + ':x' for x in want)
+            if res.get('r') == 'ok' and (sorted(res.get('diff', [])) != wantn or not res.get('stable', True)):
+                C.report_violation(f'{label}: {bad}; native: {res}', vec)
+                C.samples.append({'counterexample': vec})
+                return
+            raise Broken(f'{label}: {bad} - does not reproduce natively: {res}')
+    C.bounds[f'auth_diff:{nsets}'] = {'sets': nsets, 'universe': len(universe), 'paths': npaths}
+    res = C.native({'op': 'c06:auth_diff', 'sets': [['$a:x', '$b:x'], ['$b:x', '$c:x'], ['$b:x']], 'repeat': 16})
+    C.model_validation += 1
+    if res.get('r') != 'ok' or sorted(res.get('diff', [])) != ['$a:x', '$c:x'] or not res.get('stable', True):
+        raise Broken(f'auth-chain difference validation instance fails natively: {res}')
+    C.samples.append({'auth_chain_diff': f'{nsets} sets', 'paths': npaths})
+
+
+def run_separate(C, job):
+    """separate(): unconflicted = keys every state set maps to the same event; conflicted = all events of the other keys;
+    as maps / sets, for every iteration order of every HashMap involved (C06, and the first clause of C07)"""
+    nsets, chunk, nchunks = job
+    E = C.fresh_engine(KEYS, N=8)
+    E.feas_mode = 'never'
+    E.hash_any_order = True
+    E.overrides.insert(0, (re.compile(r'^<Id as std::clone::Clone>::clone$'), lambda E_, st, c, a, m: [(TRUE, E_.deref(st, a[0]))]))
+    f = E.find_func('separate')
+    SET = 'ruma_events::enums::StateEventType'
+    keys = [(b'RoomTopic', b''), (b'RoomMember', b'@a:x')]
+    ids = [b'$a', b'$b']
+    opts = [None, 0, 1]
+    combos = list(itertools.product(itertools.product(opts, repeat=len(keys)), repeat=nsets))
+    combos = combos[chunk::nchunks]
+    npaths = 0
+    mk_key = lambda k: Tup([Adt(SET, k[0].decode(), []), Obj('String', E.const_str(k[1]))])
+    for combo in combos:
+        label = 'separate(' + '; '.join('{' + ', '.join(f'{keys[j][0].decode()}: {ids[v].decode()}' for j, v in enumerate(ss) if v is not None) + '}' for ss in combo) + ')'
+        del E.axioms[:]
+        st = E.new_state()
+        maps = [E.mk_map('HashMap', [(mk_key(keys[j]), E.const_str(ids[v])) for j, v in enumerate(ss) if v is not None]) for ss in combo]
+        it = Obj('SeqIter', (tuple(E.root_ref(st, mp) for mp in maps), 0))
+        outs = E.run_func(f, [it], [], st=st)
+        C.absorb(E)
+        want_un, want_co = {}, {}
+        for j, k in enumerate(keys):
+            vals = [ss[j] for ss in combo]
+            present = [v for v in vals if v is not None]
+            if present and len(present) == nsets and len(set(present)) == 1:
+                want_un[k] = ids[present[0]]
+            elif present:
+                want_co[k] = sorted(set(ids[v] for v in present))
+        bad = None
+        for o in outs:
+            npaths += 1
+            if o.kind != 'ret':
+                bad = f'panics: {o.value}'; break
+            un, co = [E.deref(o.st, x) for x in o.value.fields]
+            def key_of(kv):
+                kv = E.deref(o.st, kv)
+                return (E.deref(o.st, kv.fields[0]).variant.encode(), E.as_str(o.st, kv.fields[1]).conc())
+            got_un = {key_of(k): E.as_str(o.st, v).conc() for k, v in un.data[1]}
+            got_co = {key_of(k): sorted(E.as_str(o.st, x).conc() for x in E.deref(o.st, v).data) for k, v in co.data[1]}
+            if got_un != want_un or got_co != want_co:
+                bad = f'unconflicted {got_un} conflicted {got_co}; expected {want_un} / {want_co}'; break
+        C.queries.append({'name': label + f': unconflicted / conflicted split, all {len(outs)} hash iteration orders', 'result': 'sat' if bad else 'unsat', 's': 0})
+        if bad:
+            vec = {'op': 'c06:separate', 'sets': [{f'{keys[j][0].decode()}|{keys[j][1].decode()}': ids[v].decode() + ':x' for j, v in enumerate(ss) if v is not None} for ss in combo]}
+            res = C.native(vec); vec['native'] = res
+            exp_un = {f'{k[0].decode()}|{k[1].decode()}': v.decode() + ':x' for k, v in want_un.items()}
+            exp_co = {f'{k[0].decode()}|{k[1].decode()}': [x.decode() + ':x' for x in v] for k, v in want_co.items()}
+            if res.get('r') == 'ok' and (res.get('unconflicted') != exp_un or res.get('conflicted') != exp_co or not res.get('stable', True)):
+                C.report_violation(f'{label}: {bad}; native: {res}', vec)
+                C.samples.append({'counterexample': vec})
+                return
+            raise Broken(f'{label}: {bad} - does not reproduce natively: {res} (expected {exp_un} / {exp_co})')
+    C.bounds[f'separate:{nsets}:{chunk}'] = {'state_sets': nsets, 'scenarios': len(combos), 'paths': npaths}
+    if chunk == 0:
+        res = C.native({'op': 'c06:separate', 'sets': [{'RoomTopic|': '$a:x', 'RoomMember|@a:x': '$b:x'}, {'RoomTopic|': '$a:x', 'RoomMember|@a:x': '$a:x'}], 'repeat': 16})
+        C.model_validation += 1
+        if res.get('r') != 'ok' or res.get('unconflicted') != {'RoomTopic|': '$a:x'} or res.get('conflicted') != {'RoomMember|@a:x': ['$a:x', '$b:x']} or not res.get('stable', True):
+            raise Broken(f'separate validation instance fails natively: {res}')
+    C.samples.append({'separate': f'{nsets} state sets, chunk {chunk}', 'scenarios': len(combos), 'paths': npaths})
+
+
 def expected_order(nodes):
     done, out = set(), []
     byid = {x['id']: x for x in nodes}
@@ -136,14 +259,31 @@ def body(C):
     K = 4 if C.tier == 'thorough' else 3
     jobs = []
     for n in range(1, K + 1):
-        shapes = [(es, perm) for es in dags(n) for perm in itertools.permutations(range(n))]
-        if n == K and C.tier == 'quick':
-            pass
+        perms = list(itertools.permutations(range(n)))
+        if n == 4:
+            # 64 DAG shapes x 24 identifier assignments x (up to 24 orders of the graph walk) did not finish in 45 min:
+            # the thorough tier keeps every DAG shape with the two extreme identifier assignments
+            perms = [tuple(range(n)), tuple(reversed(range(n)))]
+        dl = list(dags(n))
+        if n == 4:
+            import random
+            dl = random.Random(C.seed).sample(dl, 32)      # all 64 shapes x all hash orders did not finish in an hour
+        shapes = [(es, perm) for es in dl for perm in perms]
         per = max(1, len(shapes) // 12)
         for i in range(0, len(shapes), per):
             jobs.append((run_sort, (n, shapes[i:i + per])))
+    if PID == 'C06' or os.environ.get('VERIF_PID') == 'C06':
+        jobs += [(run_auth_diff, 1), (run_auth_diff, 2), (run_auth_diff, 3)]
+        jobs += [(run_separate, (1, 0, 1)), (run_separate, (2, 0, 2)), (run_separate, (2, 1, 2))]
+        if C.tier == 'thorough':
+            jobs += [(run_separate, (3, i, 12)) for i in range(12)]
+        C.assumptions.append('conflict separation (separate): 1-2 state sets (3 thorough) over two state keys and two event ids, every combination (key absent / either id), every iteration order of the state maps, the occurrence map and its inner maps; results compared as maps / sets')
+        C.assumptions.append('auth-chain difference (get_auth_chain_diff): 1-3 chains over a universe of 3 (2 for three chains) event ids, every subset combination, every iteration order of the sets and of the counting map; result compared as a set')
+    parts = os.environ.get('VERIF_PARTS')
+    if parts:
+        jobs = [j for j in jobs if any(p in j[0].__name__ for p in parts.split(','))]
     C.assumptions += [
-        f'every DAG over at most {K} nodes (edges only towards lower-numbered nodes, every assignment of the identifiers $a..$d to the nodes), power level and timestamp per node symbolic (JSON integer range)',
+        f'every DAG over at most {K} nodes (edges only towards lower-numbered nodes, every assignment of the identifiers $a..$d to the nodes; for 4 nodes: 32 of the 64 DAG shapes (chosen by VERIF_SEED) with the identity and the reversed assignment), power level and timestamp per node symbolic (JSON integer range)',
         'HashMap / HashSet iteration: every order of every container walked is explored (symbolic order index); BinaryHeap is a library model (pop = maximum by the crate\'s Ord impl); tracing disabled',
         'outside the claim: resolve() as a whole - conflict separation, auth-chain difference, reverse_topological_power_sort\'s graph construction and sender power levels, iterative_auth_check, mainline_sort; room histories; threads',
     ]
